@@ -9,10 +9,12 @@ use tower_resilience_adaptive::{AdaptiveError, AdaptiveLimiterLayer, AdaptiveSer
 
 pub struct AdaptiveAd {
     svc: Option<AdaptiveService<Inner, Algorithm>>,
+    svc2: Option<AdaptiveService<Inner, Algorithm>>,
+    two: bool,
 }
 impl AdaptiveAd {
     pub fn new() -> Self {
-        AdaptiveAd { svc: None }
+        AdaptiveAd { svc: None, svc2: None, two: false }
     }
 }
 fn map_res(r: Result<Resp, AdaptiveError<IErr>>) -> Out {
@@ -29,7 +31,7 @@ impl Adapter for AdaptiveAd {
     fn gen_cfg(&mut self, rng: &mut Rng, _size: Size) -> Value {
         let min = 1 + rng.below(2);
         let max = min + rng.below(4);
-        json!({"kind": *rng.pick(&["aimd", "vegas"]), "min": min, "max": max, "initial": rng.below(max + 2), "inc": 1 + rng.below(2), "fnum": *rng.pick(&[0u64, 2, 3, 4])})
+        json!({"kind": *rng.pick(&["aimd", "vegas"]), "min": min, "max": max, "initial": rng.below(max + 2), "inc": 1 + rng.below(2), "fnum": *rng.pick(&[0u64, 2, 3, 4]), "two": rng.below(2)})
     }
     fn build(&mut self, cfg: &Value, sim: &mut Sim) {
         let u = |k: &str| cfg[k].as_u64().unwrap_or(1) as usize;
@@ -47,18 +49,26 @@ impl Adapter for AdaptiveAd {
                     .build(),
             )
         };
-        let svc = AdaptiveLimiterLayer::new(alg).layer(Inner::new(&sim.w));
-        let s2 = svc.clone();
+        // one layer, applied twice: both services share the algorithm, each counts its own calls
+        let layer = AdaptiveLimiterLayer::new(alg);
+        let svc = layer.layer(Inner::new(&sim.w));
+        let svc_b = layer.layer(Inner::new(&sim.w));
+        self.two = cfg["two"].as_u64().unwrap_or(0) == 1;
+        let (s2, s3) = (svc.clone(), svc_b.clone());
         self.svc = Some(svc);
+        self.svc2 = Some(svc_b);
         sim.obs = Some(Box::new(move || {
             let mut m = Obj::new();
             m.insert("inf".into(), json!(s2.in_flight()));
+            m.insert("inf2".into(), json!(s3.in_flight()));
             m.insert("limit".into(), json!(s2.limit()));
             m
         }));
     }
     fn mk(&mut self, req: &Req) -> CallFut {
-        let mut s = self.svc.as_ref().unwrap().clone();
+        // service of caller c: 1 + c % 2 when the layer is applied twice (odd callers: the second service)
+        let second = self.two && req.id % 2 == 1;
+        let mut s = if second { self.svc2.as_ref().unwrap().clone() } else { self.svc.as_ref().unwrap().clone() };
         let w = futures::task::noop_waker();
         let mut cx = std::task::Context::from_waker(&w);
         match s.poll_ready(&mut cx) {
@@ -72,7 +82,8 @@ impl Adapter for AdaptiveAd {
     }
     fn op(&mut self, name: &str, _ev: &Value, _sim: &mut Sim) -> (Value, Obj) {
         if name == "probe" {
-            let mut s = self.svc.as_ref().unwrap().clone();
+            let which = _ev.get("svc").and_then(|x| x.as_u64()).unwrap_or_else(|| if self.two { 1 + (_sim.n_events as u64 % 2) } else { 1 });
+            let mut s = if which == 2 { self.svc2.as_ref().unwrap().clone() } else { self.svc.as_ref().unwrap().clone() };
             let w = futures::task::noop_waker();
             let mut cx = std::task::Context::from_waker(&w);
             let r = match s.poll_ready(&mut cx) {
@@ -80,7 +91,9 @@ impl Adapter for AdaptiveAd {
                 Poll::Ready(Err(_)) => "err",
                 Poll::Pending => "pending",
             };
-            return (json!(r), Obj::new());
+            let mut ex = Obj::new();
+            ex.insert("svc".into(), json!(which));
+            return (json!(r), ex);
         }
         (Value::Null, Obj::new())
     }
@@ -100,5 +113,6 @@ impl Adapter for AdaptiveAd {
     }
     fn teardown(&mut self) {
         self.svc = None;
+        self.svc2 = None;
     }
 }
